@@ -2708,8 +2708,13 @@ class BSP:
         brush_ents[vmf.spawn] = bmodel_list[0]
         for ent in vmf.entities:
             if ent['model'].startswith('*'):
-                mdl_ind = int(ent.pop('model')[1:])
+                mdl_ind = int(ent['model'][1:])
                 brush_ents[ent] = bmodel_list[mdl_ind]
+        # Only take the keys out once every reference was resolved. A bad index raises above,
+        # and must not leave the (shared, cached) entities without their model keys.
+        for ent in vmf.entities:
+            if ent['model'].startswith('*'):
+                ent.pop('model')
 
         return brush_ents
 
